@@ -565,11 +565,14 @@ static void op_readdir(const Op& op) {
     if (e->stdio || (!e->dir && !e->preopen) || e->stale) return;     // not a directory: outside the statement
     if (X->prop == "C13") { std::vector<DirEnt> g; uint32_t u = 0, err = 0; bool t = false; readdir_call(op, fd, buflen, 0, g, &u, &err, &t); return; }   // listing rules belong to C14
     { struct stat dst; if (__real_stat(e->mpath.c_str(), &dst) != 0 || !S_ISDIR(dst.st_mode)) return; }   // the directory was removed or renamed since it was opened
-    uint64_t faults_before = S->faults_fired;
+    uint64_t faults_before = S->faults_fired; std::string site_fault;
     std::vector<DirEnt> all; std::string why;
     bool ok = list_dir(op, fd, buflen, 0, all, &why);
-    if (S->faults_fired != faults_before) return;          // injected error: the listing legitimately failed
-    std::string site = std::string("fd_readdir") + (op.get("dtype_unknown") ? ":dtype-unknown" : "");
+    // injected host error: the listing may fail - but if it claims to have succeeded it has to be complete (an error must not be
+    // turned into "end of directory")
+    if (S->faults_fired != faults_before && !ok) return;
+    if (S->faults_fired != faults_before) site_fault = ":after-" + op.fault;
+    std::string site = std::string("fd_readdir") + (op.get("dtype_unknown") ? ":dtype-unknown" : "") + site_fault;
     if (!ok) { V("readdir", site + ":listing-failed", "listing of " + e->ppath.substr(X->P.size()) + " with buffer " + std::to_string(buflen) + " failed: " + why); return; }
     // expected names from the mirror directory
     std::set<std::string> want; { DIR* d = __real_opendir(e->mpath.c_str()); if (d) { while (dirent* de = __real_readdir(d)) want.insert(de->d_name); __real_closedir(d); } }
